@@ -78,18 +78,7 @@ def bool_table(body, method, tags, expected, order_ok, extra_atoms=None):
     return True, "truth table over %s matches" % (tags,), sites
 
 
-def run(chk):
-    P = mir.Program("K1")
-    chk.use_program(P)
-    chk.explain("Rules over built MIR of emit_core and emit (workspace configuration K1): pipeline order and "
-                "filter guard in emit_core::emit (R1-R4), per-impl contracts of every Emitter/Filter/Wrapping "
-                "combinator enumerated from the impl table (S2), leaf emitters bypass filter/clock/ctxt (S3). "
-                "Decides necessary structural conditions; the equivalence for all combinator trees is by "
-                "structural induction given these local contracts.")
-    chk.trust("rustc nightly: type checking, trait resolution, MIR construction")
-    chk.assume("user-supplied leaf filters/emitters meet the trait contracts (inductive hypothesis)")
-    chk.exhaustive = True
-
+def pipeline_rules(chk, P, pre):
     # ---------------- S1: pipeline ----------------------------------------------------------------
     def r1():
         b = P.body("emit_core::emit")
@@ -106,7 +95,7 @@ def run(chk):
         if cnt != (1, 1):
             return False, "with_current is not called exactly once on every path: %s" % (cnt,), [], wc[0].loc
         return True, "", [wc[0].loc]
-    chk.ob("C01.R1:emit_core::emit", "the whole pipeline runs inside exactly one Ctxt::with_current on the ctxt argument", r1)
+    chk.ob(pre + ".R1:emit_core::emit", "the whole pipeline runs inside exactly one Ctxt::with_current on the ctxt argument", r1)
 
     def pipeline_closure():
         b = P.body("emit_core::emit")
@@ -149,7 +138,7 @@ def run(chk):
         if not common.has_root(src, "capture", "evt"):
             return False, "with_extent is applied to %s" % o_str(src), [], we[0].loc
         return True, "", [we[0].loc, oe.loc, now[0].loc]
-    chk.ob("C01.R2:emit_core::emit", "own extent first, Clock::now only as the or_else fallback", r2)
+    chk.ob(pre + ".R2:emit_core::emit", "own extent first, Clock::now only as the or_else fallback", r2)
 
     def r3():
         c = pipeline_closure()
@@ -186,7 +175,7 @@ def run(chk):
         if not (r[0] == "call" and r[1].bb == ap[0].bb):
             return False, "map_props closure returns %s" % o_str(r), [], ap[0].loc
         return True, "", [mp[0].loc, ap[0].loc]
-    chk.ob("C01.R3:emit_core::emit", "event props first, ambient props second: props.and_props(ctxt)", r3)
+    chk.ob(pre + ".R3:emit_core::emit", "event props first, ambient props second: props.and_props(ctxt)", r3)
 
     def r4():
         c = pipeline_closure()
@@ -221,7 +210,23 @@ def run(chk):
             return False, ("the filter sees %s but the emitter receives %s: they must be the same fully built event"
                            % (o_str(em), o_str(ee))), [], e.loc
         return True, "", [m.loc, e.loc]
-    chk.ob("C01.R4:emit_core::emit", "emit is guarded by matches(true) on the same fully built event; matches once, emit at most once", r4)
+    chk.ob(pre + ".R4:emit_core::emit", "emit is guarded by matches(true) on the same fully built event; matches once, emit at most once", r4)
+
+
+
+def run(chk):
+    P = mir.Program("K1")
+    chk.use_program(P)
+    chk.explain("Rules over built MIR of emit_core and emit (workspace configuration K1): pipeline order and "
+                "filter guard in emit_core::emit (R1-R4), per-impl contracts of every Emitter/Filter/Wrapping "
+                "combinator enumerated from the impl table (S2), leaf emitters bypass filter/clock/ctxt (S3). "
+                "Decides necessary structural conditions; the equivalence for all combinator trees is by "
+                "structural induction given these local contracts.")
+    chk.trust("rustc nightly: type checking, trait resolution, MIR construction")
+    chk.assume("user-supplied leaf filters/emitters meet the trait contracts (inductive hypothesis)")
+    chk.exhaustive = True
+
+    pipeline_rules(chk, P, "C01")
 
     # ---------------- S2: combinator contracts ------------------------------------------------------
     classified = 0
@@ -621,6 +626,23 @@ def run(chk):
            private_emit("emit::macro_hooks::__private_emit_event"))
 
     # unclassified impls: generic discipline only (no alarm for shape)
+    if chk.tier == "thorough":
+        # the no_std / no-alloc build of emit_core has its own copy of the pipeline
+        try:
+            P2 = mir.Program("K2a")
+            chk.use_program(P2)
+            pipeline_rules(chk, P2, "C01.K2a")
+            for key, want in (("<emit_core::empty::Empty as emit_core::emitter::Emitter>::blocking_flush", True),
+                              ("<emit_core::empty::Empty as emit_core::filter::Filter>::matches", True)):
+                def f(key=key, want=want):
+                    b = P2.body(key)
+                    v = common.const_return(b)
+                    if v is not want:
+                        return False, "%s returns %s in the no_std build" % (key, v), [], b.span
+                    return True, "", [b.span]
+                chk.ob("C01.K2a.S2.empty:%s" % key, "Empty is inert in the no_std build too", f)
+        except SystemExit as e:
+            chk.fail("C01.K2a", "emit_core --no-default-features compiles", str(e))
     uncl = []
     for b in emitter_bodies + filter_bodies + wrapping_bodies:
         if b.crate in ("emit_core",) or "FirstDefined" in (b.self_ty or ""):
